@@ -1,4 +1,4 @@
-"""C07 -- import tidying never changes what a name means (R07.1-R07.8)."""
+"""C07 -- import tidying never changes what a name means (R07.1-R07.9)."""
 from __future__ import annotations
 
 import ast
@@ -19,7 +19,7 @@ EXPLANATION = (
     "visit<Name> method on the base visitor (dispatch is by class name).  R07.5: the used-name recorder adds every "
     "dotted prefix of a used primary (the one-time selector needs prefix-closure).  R07.6: in the star-import branch the "
     "stateful selector is consulted only until its first acceptance.  R07.7: a from-import is identified by (module_name, level): "
-    "module_name equality between two infos is always paired with level equality, and a rebuilt FromImport keeps the level of its source.  R07.8: `import a.b` is covered by `import a` only on a dotted prefix that ends in the dot.  Idempotence, re-emitted text and sort keys "
+    "module_name equality between two infos is always paired with level equality, and a rebuilt FromImport keeps the level of its source.  R07.8: `import a.b` is covered by `import a` only on a dotted prefix that ends in the dot.  R07.9: the resource the self-import visitor compares with is its constructor argument, unchanged.  Idempotence, re-emitted text and sort keys "
     "are not decided."
 )
 ASSUMPTIONS = ["scope-opening constructors without a handler in the finder (async def, lambda, comprehensions) only make more names count as used: conservative, not armed"]
@@ -32,6 +32,7 @@ GLOBAL = "rope.refactor.importutils.module_imports._GlobalUnboundNameFinder"
 def check(ctx, res) -> None:
     _check_main(ctx, res)
     _from_import_identity_rule(ctx, res)
+    _self_identity_rule(ctx, res)
     from .common import prefix_boundary_rule
 
     prefix_boundary_rule(ctx, res, "R07.8", ["rope.refactor.importutils.actions.AddingVisitor.visitNormalImport"])
@@ -308,3 +309,45 @@ def _from_import_identity_rule(ctx, res, rule: str = "R07.7") -> None:
                         "a relative import is re-emitted with a different number of leading dots and resolves to another module", function=f.qualname)
     res.floor(rule, "module_name comparisons between import infos", na, 1)
     res.floor(rule, "from-imports rebuilt from another info", nb, 5)
+
+
+def _self_identity_rule(ctx, res) -> None:
+    """R07.9: the self-import visitor empties every import whose imported resource equals `self.resource`.  That
+    attribute must be the module that is being organised exactly as handed in: a package folder is not its
+    `__init__.py` (`from . import sub` there imports a submodule, not a name of the module itself)."""
+    idx = ctx.idx
+    cls = idx.need_class("rope.refactor.importutils.actions.SelfImportVisitor")
+    init = cls.methods.get("__init__")
+    if init is None:
+        raise AnalysisError("anchor=SelfImportVisitor.__init__ missing")
+    # attributes compared with an imported resource on the way to empty_import / to_be_fixed
+    compared = set()
+    for m in cls.methods.values():
+        for x in ast.walk(m.node):
+            if isinstance(x, ast.Compare) and len(x.ops) == 1 and isinstance(x.ops[0], ast.Eq):
+                for side in (x.left, x.comparators[0]):
+                    if is_self_attr(side):
+                        compared.add(side.attr)
+    ps = [a.arg for a in init.node.args.args][1:]
+    n = 0
+    for attr in sorted(compared):
+        stores = [x for x in walk_local(init.node) if isinstance(x, ast.Assign) and any(is_self_attr(t, attr) for t in x.targets)]
+        if not stores:
+            continue
+        n += 1
+        bad = None
+        for st in stores:
+            if not (isinstance(st.value, ast.Name) and st.value.id in ps):
+                bad = f"it is stored as `{ast.unparse(st.value)}`"
+            else:
+                p = st.value.id
+                re = [x for x in walk_local(init.node) if isinstance(x, (ast.Assign, ast.AugAssign)) and any(
+                    isinstance(t, ast.Name) and t.id == p for t in (x.targets if isinstance(x, ast.Assign) else [x.target]))]
+                if re:
+                    bad = f"the parameter `{p}` is rebound (`{ast.unparse(re[0])[:60]}`) before it is stored"
+        res.add("R07.9", f"SelfImportVisitor|identity:{attr}", bad is None, f"{init.unit.rel}:{stores[0].lineno}",
+                f"self.{attr} is the constructor argument, unchanged" if bad is None else
+                f"SelfImportVisitor compares imported resources with self.{attr} to decide that an import is a self-import, but {bad}: in a package's "
+                "__init__.py `from . import sub` / `from pkg import sub` are taken for imports of the module's own names and deleted, so the "
+                "submodule names stop resolving (NameError on import of the package)", function=init.qualname)
+    res.floor("R07.9", "identity attributes of the self-import visitor", n, 1)
